@@ -854,8 +854,10 @@ Op(t) ==
 
 \* deterministic teardown once the budget is spent: close what is open (innermost first), finish
 \* the remaining spans, exit; lowest thread first; no branching
+\* nobody is left to make a call (every thread has exited, none can be started)
+NoActor == \A t \in Threads : tst[t] = "dead" \/ (tst[t] = "unborn" /\ ~M("spawn"))
 ProgDone == IF Fixed /\ ~Prefix THEN \A t \in Threads : tst[t] # "live" \/ pc[t] > Len(Prog[t])
-            ELSE ~Budget /\ \A t \in Threads : tst[t] # "live" \/ pc[t] > Len(Prog[t])
+            ELSE (~Budget \/ NoActor) /\ \A t \in Threads : tst[t] # "live" \/ pc[t] > Len(Prog[t])
 Idle(t) == cur[t] = <<>> /\ inop[t] = None
 LowestBusy == {t \in Threads : tst[t] = "live" /\ Idle(t)}
 Teardown(t) ==
@@ -900,6 +902,18 @@ QuietCycle ==
 
 Done == AllQuiet /\ quiet = 2
 
+\* the budget is not spent but no operation of the menu is possible any more (every root the bounds allow
+\* has been made and finished, say): the rest of the budget is given up, so that the behaviour is torn
+\* down and printed like any other instead of ending nowhere
+GiveUp ==
+  /\ ~Fixed /\ Budget /\ cph = "idle"
+  /\ \A t \in Threads : Idle(t) \/ tst[t] # "live"
+  /\ \A t \in Threads : ~ENABLED Op(t)
+  /\ \A t \in Threads : ~(M("spawn") /\ ENABLED Spawn(t)) /\ ~(M("flush") /\ CanStart(t) /\ ENABLED Flush(t))
+  /\ nops' = MaxOps
+  /\ UNCHANGED <<tst, reg, ring, pend, cur, inop, stack, hs, spans, lsets, pushed, futs, cph, ci, batch, cown, active,
+                 nid, natt, ncyc, nfl, pc, quiet, a, hist>>
+
 Next ==
   \/ \E t \in Threads : Op(t) \/ Teardown(t)
   \/ \E t \in Threads : Push(t)
@@ -908,6 +922,7 @@ Next ==
   \/ (~AllQuiet /\ Cyc)
   \/ Col
   \/ QuietCycle
+  \/ GiveUp
 
 Spec == Init /\ [][Next]_vars
 
